@@ -26,7 +26,7 @@ RenderSeq(variant, kids, st) == FoldLeft(LAMBDA acc, k : RenderNode(variant, k, 
 RenderNode(variant, n, st) ==
     CASE n.t = "txt" -> [st EXCEPT !.marks = Append(@, [t |-> "tok"])]
       [] n.t = "imgx" -> [st EXCEPT !.marks = Append(@, [t |-> "tok"])]
-      [] n.t \in {"hr", "br", "long", "wide"} -> st
+      [] n.t \in {"hr", "br", "long", "wide", "cmt"} -> st      \* "cmt": something that renders as nothing (a comment)
       [] n.t = "img" -> [links |-> st.links + 1,
                          marks |-> st.marks \o <<[t |-> "tok"], [t |-> "lab", n |-> st.links + 1, owner |-> st.links + 1]>>]
       [] n.t = "a"   -> LET own == st.links + 1
